@@ -10,6 +10,7 @@ import Rox.Lemmas.RangeNest
 import Rox.Lemmas.Shift
 import Rox.Lemmas.ShiftErr
 import Rox.Props.C01
+import Rox.Props.C16Base
 
 namespace Rox.Props.C13
 open Rox Rox.Spec Rox.Api
@@ -105,6 +106,32 @@ theorem parsed_ranges_nested (txt : Bytes) (hv : ValidUtf8 txt) (opt : Opt)
     (∀ i j, i < d.nodes.size → prevSib d.nodes i = some j →
       (Rox.Lemmas.rangeOf d.nodes j).2 ≤ (Rox.Lemmas.rangeOf d.nodes i).1) :=
   Rox.Lemmas.parse_ranges_nested Generated.tables C01.generated_tables_ok txt hv opt hdtd hp d h
+
+/-- **Nesting and order under `allow_dtd = true` as well, for every input without a DOCTYPE** (an input
+has no DOCTYPE in the sense of the code exactly when the default configuration does not refuse it
+with `DtdDetected`): `parsed_ranges_nested` transported along `C16.dichotomy` — the flag changes
+nothing else, so whichever its value, an accepted input that is not refused by the default has
+nested, ascending ranges. (With a DOCTYPE and entity references the nodes that come out of
+replacement texts have their ranges inside the DOCTYPE, and nesting is not claimed.) -/
+theorem parsed_ranges_nested_any_flag (txt : Bytes) (hv : ValidUtf8 txt) (opt : Opt)
+    (hp : opt.positions = true) (d : Doc) (h : parse Generated.tables txt opt = .ok d)
+    (hnd : parse Generated.tables txt { opt with allowDtd := false } ≠ .err .dtdDetected) :
+    (∀ i p, i < d.nodes.size → par d.nodes i = some p →
+      (Rox.Lemmas.rangeOf d.nodes p).1 ≤ (Rox.Lemmas.rangeOf d.nodes i).1 ∧
+      (Rox.Lemmas.rangeOf d.nodes i).2 ≤ (Rox.Lemmas.rangeOf d.nodes p).2) ∧
+    (∀ i j, i < d.nodes.size → prevSib d.nodes i = some j →
+      (Rox.Lemmas.rangeOf d.nodes j).2 ≤ (Rox.Lemmas.rangeOf d.nodes i).1) := by
+  have hf : parse Generated.tables txt { opt with allowDtd := false } = .ok d := by
+    rcases C16.dichotomy Generated.tables txt opt with h1 | h2
+    · exact absurd h1 hnd
+    · cases hb : opt.allowDtd with
+      | false =>
+        have : ({ opt with allowDtd := false } : Opt) = opt := by cases opt; simp_all
+        rw [this]; exact h
+      | true =>
+        have : ({ opt with allowDtd := true } : Opt) = opt := by cases opt; simp_all
+        rw [h2, this]; exact h
+  exact parsed_ranges_nested txt hv { opt with allowDtd := false } rfl hp d hf
 
 /-- **Shift equivariance** (every accepted input that does not begin with a BOM or an XML
 declaration, every `k`, every option value): prefixing the document with `k` spaces of prolog white
